@@ -995,6 +995,285 @@ def _rc(s):
     return ''.join(_RC[c] for c in reversed(s))
 
 
+# ----------------------------------------------------------------------------
+# the text parser in front of the VEP converter
+# ----------------------------------------------------------------------------
+class _VepField:
+    def __init__(self, owner, k, col, part=None):
+        self.owner, self.k, self.col, self.part = owner, k, col, part
+
+    def sym_method(self, I, name, a, kw):
+        if name == 'split' and len(a) == 1 and a[0] in (',', '/') and self.part is None:
+            if I.e.branch(self.owner._cur.single(self.k, z3.IntVal(self.col)), f'column {self.col} has one part'):
+                return [_VepField(self.owner, self.k, self.col, 0)]
+            return [_VepField(self.owner, self.k, self.col, 0), _VepField(self.owner, self.k, self.col, 1)]
+        raise Unsupported(f'VEP field.{name}')
+
+    def sym_eq(self, I, other):
+        if isinstance(other, _VepField):
+            return z3.BoolVal(True) if (other.col, other.part) == (self.col, self.part) and z3.eq(z3.simplify(other.k), z3.simplify(self.k)) else I.e.bool('fields_equal')
+        if other == '-' and self.part is None:
+            return self.owner._cur.dash(self.k, z3.IntVal(self.col))
+        raise Unsupported('VEP field compared with other text')
+
+    def sym_str(self, I):
+        return self
+
+
+class _VepLine:
+    def __init__(self, owner, k, stripped=False):
+        self.owner, self.k, self.stripped = owner, k, stripped
+
+    def sym_method(self, I, name, a, kw):
+        if name == 'startswith' and a == ['#']:
+            return self.owner._cur.comment(self.k)
+        if name == 'rstrip' and not a:
+            return _VepLine(self.owner, self.k, True)
+        if name == 'split' and a == ['\t']:
+            if not self.stripped:
+                raise Unsupported('the line is split with its line break still attached')
+            return [_VepField(self.owner, self.k, c) for c in range(self.owner.NCOL)]
+        raise Unsupported(f'VEP line.{name}')
+
+
+@register
+class VepTable(Contract):
+    """VEPParser.parse(handle): every line that does not start with '#' yields exactly one record, in file order, whose location, allele, gene and
+    feature (and the other columns) are the columns of that line; comment lines yield nothing; no line ends the loop early"""
+    path, qualname, props = VEP, 'parse', ('C14',)
+    NCOL = 14
+    COLS = dict(uploaded_variation=0, location=1, allele=2, gene=3, feature=4, feature_type=5, cdna_position=7, cds_position=8, protein_position=9)
+    assumptions = ('assumed: every data row of the VEP table has 14 tab-separated columns, none empty (VEP writes - for an absent value), so rstrip() removes the line '
+                   'break only; a column split at , or / is modelled with one or two parts',)
+
+    def setup(self, I):
+        e = I.e
+        st = types.SimpleNamespace(yielded=[])
+        st.n = e.int('n_lines')
+        e.assume(st.n >= 0)
+        st.comment = z3.Function('vep_line_is_a_comment', I_, B_)
+        st.single = z3.Function('vep_column_has_one_part', I_, I_, B_)
+        st.dash = z3.Function('vep_column_is_a_dash', I_, I_, B_)
+        zz = lambda i: i if is_z3(i) else z3.IntVal(i)
+        st.args = [FnView(st.n, lambda i: _VepLine(self, zz(i)), tag='lines of the VEP table')]
+        self._cur = st
+        return st
+
+    @property
+    def models(self):
+        c = self
+
+        def inst(reg):
+            reg.ctor_('VEPRecord', lambda I, a, k: SymObj('VepRow14', **k) if not a else I.raise_('TypeError', 'positional'))
+            reg.on_yield = lambda I, frame, v: c._cur.yielded.append(v)
+        return (inst,)
+
+    def head(self, I, env, k):
+        self._cur.mark = len(self._cur.yielded)
+
+    def step(self, I, env, k):
+        st = self._cur
+        new = st.yielded[st.mark:]
+        if not new:
+            return [('a-line-yields-nothing-only-as-a-comment', st.comment(k))]
+        if len(new) != 1 or not (isinstance(new[0], SymObj) and new[0].cls == 'VepRow14'):
+            return [('one-record-per-data-line', False)]
+        r = new[0]
+        obl = [('a-comment-line-yields-no-record', z3.Not(st.comment(k)))]
+        for name, col in self.COLS.items():
+            v = r.fields.get(name)
+            ok = isinstance(v, _VepField) and v.col == col and v.part is None and z3.eq(z3.simplify(v.k), z3.simplify(k))
+            obl.append((f'{name}-is-column-{col + 1}-of-this-line', z3.BoolVal(bool(ok))))
+        cons = r.fields.get('consequences')
+        ok = isinstance(cons, list) and all(isinstance(x, _VepField) and x.col == 6 and z3.eq(z3.simplify(x.k), z3.simplify(k)) for x in cons) and len(cons) >= 1
+        obl.append(('consequences-are-the-parts-of-column-7-of-this-line', z3.BoolVal(bool(ok))))
+        return obl
+
+    @property
+    def loops(self):
+        return {0: LoopSpec(inv=lambda I, env, k: [], on_head=self.head, step=self.step, target_after='unknown',
+                            on_break=lambda I, env, k: [('every-line-is-visited', False)],
+                            on_exit=lambda I, env, n: [('all-lines-were-visited', n == self._cur.n)])}
+
+
+# ----------------------------------------------------------------------------
+# the text parser in front of the REDItools converter
+# ----------------------------------------------------------------------------
+from . import tables as T14
+
+
+class _SubsSoFar:
+    """all_subs while the substitutions column is read: the (first, second character) pairs of parts 0 .. upto-1 of that column, in order"""
+    def __init__(self, row, upto, ok=True):
+        self.row, self.upto, self.ok = row, upto, ok
+
+    def sym_method(self, I, name, a, kw):
+        if name == 'append' and len(a) == 1:
+            v = a[0]
+            good = (isinstance(v, tuple) and len(v) == 2 and all(isinstance(c, T14.TChar) for c in v)
+                    and v[0].of(self.row, 7, ' ', self.upto, 0) and v[1].of(self.row, 7, ' ', self.upto, 1))
+            self.ok = self.ok and bool(good)
+            if good:
+                I.e.prove('C14/red-table/a-substitution-of-more-than-two-characters-is-not-accepted', v[0].part.sym_len(I) <= 2)
+            self.upto = self.upto + 1
+            return None
+        raise Unsupported(f'all_subs.{name}')
+
+
+class _RedTable(Contract):
+    """REDItoolsParser.parse(path, transcript_id_column): the first line (column header) is dropped; every further line yields exactly one record, in file
+    order: region, position, reference, strand, coverage, mean quality and frequency are columns 1-6 and 9 of that line (numbers read as numbers), the base
+    counts are the numbers of column 7 in order, the substitutions are the two characters of every part of column 8 in order (a part longer than two
+    characters is a ValueError), the genomic coverage is the number in column 10 or None when that column holds no number, and the transcripts are the
+    ENST-feature pairs of all parts of the transcript column (split at , & $, a trailing separator of the line removed first) - every part, in order,
+    nothing merged; a transcript column beyond the last column is a ValueError; nothing else ends the loop early"""
+    path, qualname, props = RED, 'parse', ('C14',)
+    NCOL, TXCOL = 17, 16
+    assumptions = ('assumed: every data row has all its columns, none empty, so rstrip() removes the line break only; int() / float() of a column is the number '
+                   'written there (column 10 may hold a dash: int() fails); re.sub([,&$]$) removes one trailing separator of the line, which belongs to the last '
+                   'column; re.split gives the parts of a column in order',)
+
+    def setup(self, I):
+        st = types.SimpleNamespace(yielded=[])
+        st.tab = T14.Table(I, self.NCOL, 'REDItools_table')
+        st.tab.maybe_not_a_number = (9,)
+        st.args = [OpaqueStr(['table.tsv']), self.TXCOL]
+        self._cur = st
+        return st
+
+    @property
+    def models(self):
+        c = self
+
+        def inst(reg):
+            reg.ext_('open', lambda I, a, k: c._cur.tab.file)
+            reg.ctor_('REDItoolsRecord', lambda I, a, k: SymObj('RedRow14', **k) if not a else I.raise_('TypeError', 'positional arguments'))
+            reg.on_yield = lambda I, frame, v: c._cur.yielded.append(v)
+
+            def re_sub(I, a, k):
+                if len(a) == 3 and a[0] == '[,&$]$' and a[1] == '' and isinstance(a[2], T14.TLine) and a[2].stripped:
+                    return T14.TLine(a[2].tab, a[2].k, True, True)
+                raise Unsupported(f're.sub{tuple(a)!r}')
+            reg.ext_('re.sub', re_sub)
+
+            def re_split(I, a, k):
+                if len(a) == 2 and a[0] == r',|&|\$' and isinstance(a[1], T14.TField):
+                    return T14.TParts(a[1].tab, a[1].k, a[1].col, '[,&$]', a[1].ops)
+                raise Unsupported(f're.split{tuple(a)!r}')
+            reg.ext_('re.split', re_split)
+            reg.global_(RED, 'tuple', Builtin('tuple', lambda I, a, k: SymObj('TupleOfSubParts14', of=a[0]) if a and isinstance(a[0], T14.TSubParts)
+                                              else (tuple(I.iter_concrete(a[0])) if a else ())))
+
+            def comp(I, node, env, view, kind):
+                from pyvc.interp import Env
+                if kind == 'list' and isinstance(view, FnView) and view.tag == 'parts of a column' and not node.generators[0].ifs:
+                    j = z3.Int('j_part')
+                    sub = Env({}, env)
+                    el0 = view.get(j)
+                    I.assign(node.generators[0].target, el0, sub)
+                    el = I.eval(node.elt, sub)
+                    how = None
+                    if isinstance(el, T14.TNumber) and el.kind == 'int' and el.part is not None and el.part[0] == view.parts.sep and z3.eq(el.part[1], j):
+                        how = 'int'
+                    elif isinstance(el, SymObj) and el.cls == 'TupleOfSubParts14' and el.fields['of'].part is el0 and el.fields['of'].sep == '-':
+                        how = 'tuple-of-dash-parts'
+                    return SymObj('Mapped14', parts=view.parts, how=how)
+                return None
+            reg.comprehension_hooks.append(comp)
+        return (inst,)
+
+    # outer loop: while line (driven by next)
+    def havoc(self, I, env, k):
+        st = self._cur
+        env.set('line', T14.TLine(st.tab, k + 1))
+        st.tab.file.pos = k + 2
+
+    def inv(self, I, env, k):
+        st = self._cur
+        ln = env.lookup('line') if env.has('line') else None
+        ok = isinstance(ln, T14.TLine) and not ln.stripped and T14.same(ln.k, T14.zz(k) + 1) and T14.same(st.tab.file.pos, T14.zz(k) + 2)
+        return [('line-is-the-next-unread-line-of-the-file-after-the-header', z3.BoolVal(bool(ok)))]
+
+    def head(self, I, env, k):
+        self._cur.mark = len(self._cur.yielded)
+        self._cur.row = T14.zz(k) + 1
+
+    def step(self, I, env, k):
+        st = self._cur
+        row = T14.zz(k) + 1
+        new = st.yielded[st.mark:]
+        if len(new) != 1 or not (isinstance(new[0], SymObj) and new[0].cls == 'RedRow14'):
+            return [('one-record-per-line', False)]
+        f = new[0].fields
+        cv = T14.check_value
+        obl = []
+        for name, col, kind in (('region', 0, 'text'), ('position', 1, 'int'), ('reference', 2, 'text'), ('strand', 3, 'int'), ('coverage_q', 4, 'int'),
+                                ('mean_quality', 5, 'float'), ('frequency', 8, 'float')):
+            obl.append((f'{name}-is-column-{col + 1}-of-this-line-as-{kind}', z3.BoolVal(bool(cv(f.get(name), row, col, kind)))))
+        bc = f.get('base_count')
+        obl.append(('base_count-are-the-numbers-of-column-7-in-order',
+                    z3.BoolVal(bool(isinstance(bc, SymObj) and bc.cls == 'Mapped14' and bc.fields['how'] == 'int' and bc.fields['parts'].is_(row, 6, ', ', (('strip', ']['),))))))
+        subs = f.get('all_subs')
+        if isinstance(subs, _SubsSoFar) and subs.ok and T14.same(subs.row, row):
+            obl.append(('all_subs-are-the-character-pairs-of-every-part-of-column-8-in-order', subs.upto == T14.TParts(st.tab, row, 7, ' ').count()))
+        else:
+            obl.append(('all_subs-are-the-character-pairs-of-every-part-of-column-8-in-order', False))
+        g = f.get('g_coverage_q', 'missing')
+        if g is None:
+            obl.append(('g_coverage_q-is-None-only-when-column-10-holds-no-number', z3.Not(st.tab.is_number(row, z3.IntVal(9)))))
+        else:
+            obl.append(('g_coverage_q-is-the-number-in-column-10', z3.BoolVal(bool(cv(g, row, 9, 'int')))))
+        tx = f.get('transcript_id')
+        last = (('trailing-separator-removed',),) if self.TXCOL == self.NCOL - 1 else ()
+        obl.append(('transcript_id-are-the-dash-split-pairs-of-every-part-of-the-transcript-column-in-order',
+                    z3.BoolVal(bool(isinstance(tx, SymObj) and tx.cls == 'Mapped14' and tx.fields['how'] == 'tuple-of-dash-parts'
+                                    and tx.fields['parts'].is_(row, self.TXCOL, '[,&$]', last)))))
+        return obl
+
+    # inner loop: for sub in fields[7].split(' ')
+    def sub_havoc(self, I, env, j):
+        env.set('all_subs', _SubsSoFar(self._cur.row, j))
+
+    def sub_inv(self, I, env, j):
+        v = env.lookup('all_subs') if env.has('all_subs') else None
+        if isinstance(v, list) and not v and isinstance(j, int) and j == 0:
+            return []
+        ok = isinstance(v, _SubsSoFar) and v.ok and T14.same(v.upto, T14.zz(j)) and T14.same(v.row, self._cur.row)
+        return [('all_subs-holds-the-pairs-of-the-parts-read-so-far', z3.BoolVal(bool(ok)))]
+
+    def post_raise(self, I, st, exc):
+        I.e.prove('C14/red-table/the-only-failures-are-ValueError-for-an-over-long-substitution-or-a-missing-transcript-column-and-IndexError-for-a-too-short-substitution',
+                  z3.BoolVal(exc.cls in ('ValueError', 'IndexError')))
+
+    @property
+    def loops(self):
+        return {0: LoopSpec(inv=self.inv, havoc=self.havoc, on_head=self.head, step=self.step,
+                            on_break=lambda I, env, k: [('every-line-is-visited', False)],
+                            on_exit=lambda I, env, k: [('all-lines-were-visited', T14.zz(k) + 1 >= self._cur.tab.n)]),
+                1: LoopSpec(inv=self.sub_inv, havoc=self.sub_havoc, target_after='unknown',
+                            on_break=lambda I, env, j: [('every-substitution-is-read', False)])}
+
+
+@register
+class RedTable(_RedTable):
+    __doc__ = _RedTable.__doc__
+
+
+@register
+class RedTableNoColumn(_RedTable):
+    """REDItoolsParser.parse with a transcript column beyond the last column of the table: a ValueError, no record"""
+    TXCOL = 17
+
+    def name(self):
+        return super().name() + '[transcript column beyond the table]'
+
+    def step(self, I, env, k):
+        return [('no-record-without-a-transcript-column', False)]
+
+    def post_raise(self, I, st, exc):
+        I.e.prove('C14/red-table/a-missing-transcript-column-is-a-ValueError', z3.BoolVal(exc.cls in ('ValueError', 'IndexError')))
+
+
 def _apply_event(chrom, a, b, allele):
     """the genomic event named by a VEP row, on plus-strand chromosome text (property statement)"""
     if allele == '-':
